@@ -2,4 +2,4 @@ From Coq Require Import Extraction ExtrOcamlBasic.
 From BV Require Import lib.ExtractBase lib.Ints gen.Params_gen model.Package model.PackageAccept model.Truc.
 Extraction "model.ml" extract_base single_truc_checks package_truc_checks parents_of children_of anc_count desc_count
   truc_try_add truc_try_package truc_apply truc_holds truc_ok_tx desc_txids remove_set vsize_of has_txid is_truc
-  check_cluster_limits check_policy_limits cluster_of direct_conflicts.
+  check_cluster_limits check_policy_limits cluster_of direct_conflicts anc_set.
